@@ -6,6 +6,7 @@ import (
 	"go/types"
 	"slices"
 	"strings"
+	"time"
 
 	"golang.org/x/tools/go/ssa"
 )
@@ -205,6 +206,18 @@ func (in *Exec) step(instr ssa.Instruction, fn *ssa.Function) {
 	in.curFn = fn
 	if in.steps > in.W.X.Cfg.MaxSteps {
 		panic(pathAbort{abInconclusive, fmt.Sprintf("unwinding failure: instruction budget of %d exceeded%s", in.W.X.Cfg.MaxSteps, in.where())})
+	}
+	if in.steps&0x3fff == 0 {
+		in.checkDeadline()
+	}
+}
+
+// checkDeadline ends a path that is still running after the harness's wall-clock budget (plus a minute of grace):
+// a single path with very many or very slow solver queries must not keep a check alive indefinitely.
+func (in *Exec) checkDeadline() {
+	x := in.W.X
+	if x.Cfg.Deadline > 0 && time.Since(x.started) > x.Cfg.Deadline+time.Minute {
+		panic(pathAbort{abInconclusive, fmt.Sprintf("time budget of %s exceeded inside one path%s", x.Cfg.Deadline, in.where())})
 	}
 }
 
